@@ -1,4 +1,5 @@
 import NdnProofs.Lemmas.Cascade
+import NdnProofs.Lemmas.PitSpec
 import NdnGen.C14
 /-!
 # C14 — The schema validator accepts exactly packets with a valid chain to the anchor
@@ -20,6 +21,13 @@ All theorems are generic in the type `N` of names (only equality of names is use
 of the schema is the parameter `E.allowed`.  `NdnProofs/Props/C14Lvs.lean` instantiates `N` with real
 names and `allowed` with the model of `Checker.check` (property C12), so that "every link is allowed"
 is spelled out in terms of rule matching.  The examples below use opaque names (`Name = Nat`).
+
+The signing check may raise (`E.allowed … = .error e`): a link of a chain is a check that answers `True`.
+What the validator does when the check raises is the subject of `check_raise_reaches_caller`,
+`nested_raise_propagates`, `raising_check_never_accepts`, `raise_has_cause`, `check_exception_uncaught`.
+"Retrievable" is spelled out: the network answers the Interest `certInterest kn` (exact name, MustBeFresh,
+4000 ms - the only kind of Interest the validator sends, `log_only_cert_interests`, `fetch_interest_params`)
+with a Data named exactly `kn` (`fetch_exact_name`, `fetched_key_only_under_requested_name`).
 
 "No verdict" (`verdict = none`) is fuel exhaustion: the model of a validation that does not
 terminate (certificate loop served for ever).  It is never an acceptance (`validate_sound`).
@@ -96,7 +104,7 @@ theorem system_verdict_iff_chain (envs : Nat → Env N)
     anchor (a certificate loop), then no run, with any fuel and any reachable storage, accepts `o`;
     running out of fuel yields no verdict, not an acceptance. -/
 theorem loop_never_accepted (hu : Unforgeable E Signed) (S : N → Prop)
-    (hS : ∀ n c, S n → E.world n = some (.data c) → ∃ m, c.keyLoc = some m ∧ S m)
+    (hS : ∀ n c, S n → E.world (certInterest n) = some (.data c) → ∃ m, c.keyLoc = some m ∧ S m)
     (hA : ¬ S E.anchorName) (o : Obj N) (n : N) (hn : o.keyLoc = some n) (hs : S n)
     (fuel : Nat) (st : Cache N) (hinv : CacheInv E Signed st) :
     (validate E fuel st o).verdict ≠ some .accept ∧ (validate E 0 st o).verdict = none := by
@@ -156,6 +164,101 @@ theorem construct_refuses (crypto : Key → Obj N → Bool)
         · rintro ⟨_, _, _, hver, _, _⟩
           rw [verifySig_of_verifies hver.1 (hc _ _ hver.2)] at hv; cases hv
 
+/-! ### a signing check that raises -/
+
+/-- **check_raise_reaches_caller.** If `Checker.check` raises on the packet's own link, the validation
+    raises that exception (with any fuel ≥ 1): no verdict of acceptance or refusal, no certificate Interest,
+    the storage untouched. -/
+theorem check_raise_reaches_caller (fuel : Nat) (st : Cache N) (o : Obj N) (kn : N) (e : PyErr)
+    (hk : o.keyLoc = some kn) (ha : E.allowed o.name kn = .error e) :
+    validate E (fuel + 1) st o = ⟨some (.raise e), st, []⟩ := by
+  rw [validate]; simp [hk, ha]
+
+/-- **nested_raise_propagates.** If the validation of a fetched certificate raises (its signing check
+    raised, or a key importer refused the key bits), the validation that fetched it raises the same
+    exception: the `except` around the fetch does not catch it, the key is not cached. -/
+theorem nested_raise_propagates (fuel : Nat) (st : Cache N) (o : Obj N) (kn : N) (c : Obj N) (e : PyErr)
+    (hk : o.keyLoc = some kn) (ha : E.allowed o.name kn = .ok true) (hn : kn ≠ E.anchorName)
+    (hl : cacheLoad st kn = none) (hex : express E (certInterest kn) = some c)
+    (hr : (validate E fuel st c).verdict = some (.raise e)) :
+    (validate E (fuel + 1) st o).verdict = some (.raise e) ∧
+      (validate E (fuel + 1) st o).cache = (validate E fuel st c).cache := by
+  rw [validate]; simp [hk, ha, hn, hl, hex, hr]
+
+/-- **raising_check_never_accepts.** Whatever the fuel and the storage: a packet on whose link the
+    signing check raises is never accepted, and never refused either — the only verdicts are "none yet"
+    (no fuel) and the exception itself. -/
+theorem raising_check_never_accepts (fuel : Nat) (st : Cache N) (o : Obj N) (kn : N) (e : PyErr)
+    (hk : o.keyLoc = some kn) (ha : E.allowed o.name kn = .error e) :
+    (validate E fuel st o).verdict = none ∨ (validate E fuel st o).verdict = some (.raise e) := by
+  cases fuel with
+  | zero => left; simp [validate]
+  | succ f => right; rw [check_raise_reaches_caller E f st o kn e hk ha]
+
+/-- **raise_has_cause.** A validation raises `e` only if some signing check raised `e` or `e` is the
+    `ValueError` of a key importer (key bits that do not fit the declared signature type). -/
+theorem raise_has_cause (fuel : Nat) (st : Cache N) (o : Obj N) (e : PyErr)
+    (h : (validate E fuel st o).verdict = some (.raise e)) :
+    (∃ a b, E.allowed a b = .error e) ∨ e = .valueError :=
+  raise_has_cause_aux E fuel st o e h
+
+/-! ### certificate fetching -/
+
+/-- **log_only_cert_interests.** Every Interest a validation sends is the certificate Interest for its
+    name: exact name (CanBePrefix false), MustBeFresh, lifetime 4000 ms. -/
+theorem log_only_cert_interests (fuel : Nat) (st : Cache N) (o : Obj N) :
+    ∀ i ∈ (validate E fuel st o).log, i = certInterest i.name :=
+  log_only_cert_aux E fuel st o
+
+/-- **fetch_exact_name.** The fetch for a key locator `kn` hands a Data `c` to the next-level validator
+    exactly when the network answered the Interest `certInterest kn` with `c` and `c` is named exactly
+    `kn`; a Data of any other name is not taken (the Interest times out, the link is refused). -/
+theorem fetch_exact_name (kn : N) (c : Obj N) :
+    express E (certInterest kn) = some c ↔ E.world (certInterest kn) = some (.data c) ∧ c.name = kn :=
+  express_certInterest E kn c
+
+/-- **fetched_key_only_under_requested_name.** A key bound to the name `n` in the storage after a
+    validation was either bound before, or a certificate Interest for exactly `n` was sent during this
+    validation, the network answered it with a Data named exactly `n`, and the key is that Data's content. -/
+theorem fetched_key_only_under_requested_name (fuel : Nat) (st : Cache N) (o : Obj N) (n : N) (k : Key)
+    (h : cacheLoad (validate E fuel st o).cache n = some k) :
+    cacheLoad st n = some k ∨
+      (certInterest n ∈ (validate E fuel st o).log ∧
+        ∃ c, E.world (certInterest n) = some (.data c) ∧ c.name = n ∧ c.content = some k) :=
+  cached_origin_aux E fuel st o n k h
+
+omit [DecidableEq N] in
+/-- **pit_exact_for_cert_interest.** (bridge to C03) In the specification of the pending-Interest table
+    (`Ndn.Pit.Matches`, refined by the PIT model: `Ndn.C03.one_data_all_matching_no_others`), an Interest
+    without CanBePrefix and without implicit digest is matched by exactly the Data of its own name — the
+    test `pitPasses` stands for. -/
+theorem pit_exact_for_cert_interest (r : Ndn.Pit.Req) (dnm : Ndn.Pit.Name) (dg : Nat)
+    (hc : r.cbp = false) (hi : r.implicit = none) : Ndn.Pit.Matches r dnm dg ↔ dnm = r.name := by
+  unfold Ndn.Pit.Matches
+  simp only [hc, hi, Bool.false_eq_true, false_and, or_false, true_or, and_true]
+  exact eq_comm
+
+/-- **fetch_interest_params.** (generated table) The keyword arguments of the one `express_interest` call
+    in `CascadeChecker.validate`: the key locator's name, MustBeFresh, no CanBePrefix, the next-level
+    validator; nothing else (so the lifetime is `InterestParam`'s default, `Ndn.Gen.C14.defaultLifetime`). -/
+theorem fetch_interest_params :
+    Ndn.Gen.C14.fetchKwargs = [("name", "cert_name"), ("must_be_fresh", "True"), ("can_be_prefix", "False"),
+      ("validator", "self.next_level")] ∧
+    (∀ kn : Nat, (certInterest kn).lifetime = Ndn.Gen.C14.defaultLifetime) ∧
+    (∀ kn : Nat, (certInterest kn).canBePrefix = false ∧ (certInterest kn).mustBeFresh = true) := by
+  refine ⟨by decide, fun _ => rfl, fun _ => ⟨rfl, rfl⟩⟩
+
+/-- **check_exception_uncaught.** (generated tables) Nothing between `Checker.check` and the caller of the
+    validator catches an exception of the check: `validate_name` and `union_checker`'s wrapper contain no
+    `try`, `NDNApp._wait_for_data` calls the validator outside its `try`, and the only `except` inside
+    `CascadeChecker.validate` names none of the exception classes of the model (`PyErr`). -/
+theorem check_exception_uncaught :
+    Ndn.Gen.C14.validateNameCaught = [] ∧ Ndn.Gen.C14.unionCaught = [] ∧
+    Ndn.Gen.C14.waitValidatorCaught = [] ∧
+    ∀ e : PyErr, ∀ h ∈ Ndn.Gen.C14.validateCaught, e.name ∉ h ∧ "Exception" ∉ h ∧ "BaseException" ∉ h := by
+  refine ⟨by decide, by decide, by decide, ?_⟩
+  intro e; cases e <;> decide
+
 /-- **caught_exceptions.** (generated table) The only `except` clause inside `CascadeChecker.validate`
     catches exactly ValidationFailure, InterestTimeout and InterestNack around the certificate fetch —
     the outcomes the model turns into `reject`; anything else (`ValueError` of a key importer)
@@ -174,9 +277,9 @@ def gcrypto (k : Key) (o : Obj N) : Bool := o.sig == some k.id
 def certA : Obj Name := ⟨1, some 1, .ecdsa, some 10, some ⟨.ec, 10⟩⟩
 def cert3 : Obj Name := ⟨3, some 1, .ecdsa, some 10, some ⟨.ec, 30⟩⟩
 def pkt4 : Obj Name := ⟨4, some 3, .ecdsa, some 30, none⟩
-def gworld (n : Name) : Option (Outcome Name) :=
-  if n = 1 then some (.data certA) else if n = 3 then some (.data cert3) else none
-def gallowed (a b : Name) : Bool := !(a == b)
+def gworld (i : Interest Name) : Option (Outcome Name) :=
+  if i.name = 1 then some (.data certA) else if i.name = 3 then some (.data cert3) else none
+def gallowed (a b : Name) : Except PyErr Bool := if a = 0 then .error .indexError else .ok (!(a == b))
 def EA : Env Name := ⟨gallowed, gcrypto, gworld, 1, ⟨.ec, 10⟩⟩
 def EB : Env Name := ⟨gallowed, gcrypto, gworld, 2, ⟨.ec, 20⟩⟩
 
@@ -234,16 +337,45 @@ example : (validate EB 5 (validate EA 5 [] pkt4).cache pkt4).verdict = some .acc
 
 /-- the loop theorem applies: certificates 5 and 6 name each other -/
 example : ∀ fuel, (validate ⟨gallowed, gcrypto,
-      fun n => if n = 5 then some (.data ⟨5, some 6, .ecdsa, some 60, some ⟨.ec, 50⟩⟩)
-               else if n = 6 then some (.data ⟨6, some 5, .ecdsa, some 50, some ⟨.ec, 60⟩⟩) else none,
+      fun i => if i.name = 5 then some (.data ⟨5, some 6, .ecdsa, some 60, some ⟨.ec, 50⟩⟩)
+               else if i.name = 6 then some (.data ⟨6, some 5, .ecdsa, some 50, some ⟨.ec, 60⟩⟩) else none,
       1, ⟨.ec, 10⟩⟩ fuel [] ⟨7, some 5, .ecdsa, some 50, none⟩).verdict ≠ some .accept := by
   intro fuel
   refine (loop_never_accepted _ GSigned (g_unforgeable _ rfl) (fun n => n = 5 ∨ n = 6) ?_ (by decide)
     _ 5 rfl (Or.inl rfl) fuel [] (cacheInv_nil _ _)).1
   intro n c hn hw
   rcases hn with rfl | rfl
-  · simp at hw; subst hw; exact ⟨6, rfl, Or.inr rfl⟩
-  · simp at hw; subst hw; exact ⟨5, rfl, Or.inl rfl⟩
+  · simp [certInterest] at hw; subst hw; exact ⟨6, rfl, Or.inr rfl⟩
+  · simp [certInterest] at hw; subst hw; exact ⟨5, rfl, Or.inl rfl⟩
+
+/-- a packet named 0 makes the signing check raise: the exception is the verdict … -/
+example : validate EA 3 [] ⟨0, some 1, .ecdsa, some 10, none⟩ = ⟨some (.raise .indexError), [], []⟩ :=
+  check_raise_reaches_caller EA 2 [] _ 1 .indexError rfl rfl
+
+/-- … also when it is a fetched certificate (named 0, served) on whose link the check raises: the packet 7
+    that names it gets the exception, not a refusal, and nothing is cached -/
+def EA0 : Env Name := { EA with world := fun i => if i.name = 0 then some (.data ⟨0, some 1, .ecdsa, some 10, some ⟨.ec, 70⟩⟩) else none }
+
+example : (validate EA0 3 [] ⟨7, some 0, .ecdsa, some 70, none⟩).verdict = some (.raise .indexError) ∧
+    (validate EA0 3 [] ⟨7, some 0, .ecdsa, some 70, none⟩).cache = [] :=
+  nested_raise_propagates EA0 2 [] _ 0 ⟨0, some 1, .ecdsa, some 10, some ⟨.ec, 70⟩⟩ .indexError rfl rfl
+    (by decide) rfl (by decide) (by decide)
+
+example : (∃ a b, EA0.allowed a b = .error .indexError) ∨ PyErr.indexError = .valueError :=
+  raise_has_cause EA0 3 [] ⟨7, some 0, .ecdsa, some 70, none⟩ .indexError (by decide)
+
+/-- the log of the two-step validation: one Interest, exact name, must-be-fresh, 4000 ms -/
+example : (validate EA 2 [] pkt4).log = [⟨3, false, true, 4000⟩] := by decide
+
+/-- a Data of another name returned for the Interest for 3 is not taken: refused, nothing cached -/
+example : (validate { EA with world := fun _ => some (.data { cert3 with name := 33 }) } 2 [] pkt4).verdict
+      = some .reject ∧
+    (validate { EA with world := fun _ => some (.data { cert3 with name := 33 }) } 2 [] pkt4).cache = [] := by
+  decide
+
+/-- … whereas a CanBePrefix Interest would be satisfied by it (what the code must not send) -/
+example : express { EA with world := fun _ => some (.data { cert3 with name := 33 }) } ⟨3, true, true, 4000⟩
+    = some { cert3 with name := 33 } := by decide
 
 /-- construction: accepted for a matching, properly self-signed anchor; refused otherwise -/
 example : construct gcrypto ⟨true, ["#root"], ["#root"], certA, ⟨.ec, 10⟩⟩ = .ok (1, ⟨.ec, 10⟩) := by rfl
